@@ -498,7 +498,11 @@ where
         // VHOST_USER_SET_VRING_KICK, and stop ring upon receiving
         // VHOST_USER_GET_VRING_BASE.
         vring.set_queue_ready(false);
+        #[cfg(vhost_verif)]
+        vhost::vhost_user::verif_hooks::hold::reach("ctl:after_state");
         self.update_vring_registration(vring, index as u8)?;
+        #[cfg(vhost_verif)]
+        vhost::vhost_user::verif_hooks::hold::reach("ctl:after_epoll");
 
         let next_avail = vring.queue_next_avail();
 
@@ -593,7 +597,11 @@ where
         // or after it has been disabled by VHOST_USER_SET_VRING_ENABLE
         // with parameter 0.
         vring.set_enabled(enable);
+        #[cfg(vhost_verif)]
+        vhost::vhost_user::verif_hooks::hold::reach("ctl:after_state");
         self.update_vring_registration(vring, index as u8)?;
+        #[cfg(vhost_verif)]
+        vhost::vhost_user::verif_hooks::hold::reach("ctl:after_epoll");
 
         Ok(())
     }
